@@ -209,6 +209,16 @@ func ruleC17(c *Ctx) {
 			if strings.Contains(typeStr(t), "sync.") {
 				mutableKind = true
 			}
+			if mutableKind {
+				// a reference-typed package variable is still immutable state when only the initialiser assigns it and
+				// all other code merely reads it (element-wise) or calls concurrency-safe methods on it
+				if ok, why := c.P.globalInitOnly(g); ok {
+					c.ok("C17-R1", shortName(pk.Pkg.Path()), "package variable "+g.Name()+" : "+typeStr(t), c.P.Pos(g.Pos()), "assigned by the package initialiser only; every use is a read or a concurrency-safe method call")
+				} else {
+					c.bad("C17-R1", shortName(pk.Pkg.Path()), "package variable "+g.Name()+" : "+typeStr(t), c.P.Pos(g.Pos()), "library declares package-level mutable state ("+g.Name()+" "+typeStr(t)+"): "+why)
+				}
+				continue
+			}
 			c.check(!mutableKind, "C17-R1", shortName(pk.Pkg.Path()), "package variable "+g.Name()+" : "+typeStr(t), c.P.Pos(g.Pos()), "plain value, never written by an operation", "library declares package-level mutable state ("+g.Name()+" "+typeStr(t)+")")
 		}
 	}
